@@ -15,4 +15,14 @@ def canonicalize(j):
         txt = pat.sub(crate + '::', txt)
     # in-crate trait methods -> inherent style (self type printed without generic arguments by the driver)
     txt = re.sub(r'<(%s::[A-Za-z0-9_]+) as %s::[A-Za-z0-9_]+>::' % (re.escape(crate), re.escape(crate)), r'\1::', txt)
-    return json.loads(txt)
+    j2 = json.loads(txt)
+    # a statically resolved call of an in-crate trait method names its implementation (as if it were an inherent method)
+    names = set(f['name'] for f in j2['fns'])
+    for f in j2['fns']:
+        for b in f['blocks']:
+            t = b.get('term')
+            if t and t['k'] == 'call' and t.get('resolved_local') and t.get('rk') == 'item' and (t.get('trait') or '').startswith(crate + '::') \
+                    and t.get('resolved') in names and t['func'].get('fn') != t['resolved']:
+                t['func']['trait_fn'] = t['func'].get('fn')
+                t['func']['fn'] = t['resolved']
+    return j2
